@@ -27,8 +27,8 @@ func decodeElementInitValueVector(r *bytes.Reader) ([]wasm.Index, error) {
 		return nil, fmt.Errorf("get size of vector: %w", err)
 	}
 
-	vec := make([]wasm.Index, vs)
-	for i := range vec {
+	vec := make([]wasm.Index, 0, vectorCapacity(r, vs))
+	for i := uint32(0); i < vs; i++ {
 		u32, _, err := leb128.DecodeUint32(r)
 		if err != nil {
 			return nil, fmt.Errorf("read function index: %w", err)
@@ -37,7 +37,7 @@ func decodeElementInitValueVector(r *bytes.Reader) ([]wasm.Index, error) {
 		if u32 >= wasm.MaximumFunctionIndex {
 			return nil, fmt.Errorf("too large function index in Element init: %d", u32)
 		}
-		vec[i] = u32
+		vec = append(vec, u32)
 	}
 	return vec, nil
 }
@@ -47,8 +47,9 @@ func decodeElementConstExprVector(r *bytes.Reader, elemType wasm.RefType, enable
 	if err != nil {
 		return nil, fmt.Errorf("failed to get the size of constexpr vector: %w", err)
 	}
-	vec := make([]wasm.Index, vs)
-	for i := range vec {
+	vec := make([]wasm.Index, 0, vectorCapacity(r, vs))
+	for i := uint32(0); i < vs; i++ {
+		vec = append(vec, 0)
 		var expr wasm.ConstantExpression
 		err := decodeConstantExpression(r, enabledFeatures, &expr)
 		if err != nil {
